@@ -34,7 +34,16 @@ class Instance:
 
 
 class Checker:
-    def __init__(self, prop: str, tier: str = "quick", seed: int = 0, only: str | None = None, explain: bool = False):
+    def __init__(
+        self,
+        prop: str,
+        tier: str = "quick",
+        seed: int = 0,
+        only: str | None = None,
+        explain: bool = False,
+        scratch: bool = False,
+    ):
+        self.scratch = scratch  # analysing a scratch copy: never touch /verif/evidence or /verif/replays
         self.prop = prop
         self.tier = tier
         self.seed = seed
@@ -112,6 +121,10 @@ class Checker:
 
         os.makedirs(os.path.join(VERIF_DIR, "evidence"), exist_ok=True)
         replay_dir = os.path.join(VERIF_DIR, "replays", self.prop)
+        if self.scratch:
+            import tempfile
+
+            replay_dir = os.path.join(tempfile.gettempdir(), "verif-scratch-replays", self.prop)
         lines = []
         for i in uniq_known:
             lines.append(f"KNOWN-FINDING: property={self.prop} {i.key} {i.message} [{i.loc}]")
@@ -186,7 +199,8 @@ class Checker:
             "wall_s": round(wall, 3),
             "violations": len(uniq_viol),
         }
-        if self.only is None:
+        self.evidence = ev
+        if self.only is None and not self.scratch:
             with open(os.path.join(VERIF_DIR, "evidence", f"{self.prop}.json"), "w") as fh:
                 json.dump(ev, fh, indent=1, default=str)
         for l in lines:
